@@ -125,15 +125,26 @@ def setup(state: Dict[str, Any]) -> None:
                     flat.append((p, e))
             else:
                 flat.append((e["tensor_entry"], None))
-        # caller's groups untouched
+        _caller_untouched(s, "")
+        if not s["entries"]:
+            return  # generator input: structure is judged by the harness, which knows what it yielded
+        out = list(result)
+        if len(out) != len(flat):
+            rec("C11:group-count", f"{len(out)} output groups for {len(flat)} input parameters")
+            return
+        _rest(s, lr, weight_decay, independent, result, flat, out)
+
+    def _caller_untouched(s, suffix):
+        """the caller's group dicts, params lists and lr tensors are exactly what they were before the call (also judged on
+        the error path, where no postcondition runs: state["snap"] / state["caller_untouched"] are used by run_case)"""
         for e in s["entries"]:
             if "dict" not in e:
                 continue
             d = e["dict"]
             if list(d.keys()) != e["keys"]:
-                rec("C11:caller-group-keys-changed", f"{e['keys']} -> {list(d.keys())}")
+                rec("C11:caller-group-keys-changed" + suffix, f"{e['keys']} -> {list(d.keys())}")
             if d["params"] is not e["params_obj"] or [id(p) for p in d["params"]] != e["params_ids"]:
-                rec("C11:caller-group-params-list-changed", "the caller's params list was replaced or edited")
+                rec("C11:caller-group-params-list-changed" + suffix, "the caller's params list was replaced or edited")
             for k, old in e["vals"].items():
                 if k not in d:
                     continue
@@ -141,20 +152,18 @@ def setup(state: Dict[str, Any]) -> None:
                     _, t, ver, val, ptr = old
                     bump("sanitizer:tensor-lr-checked")
                     if d[k] is not t or t._version != ver or not bits_equal(t.detach(), val):
-                        rec(f"C11:caller-tensor-modified:{k}", f"group[{k!r}] tensor: version {ver}->{t._version}, value {val.item()!r}->{t.detach().item()!r}")
+                        rec(f"C11:caller-tensor-modified:{k}" + suffix, f"group[{k!r}] tensor: version {ver}->{t._version}, value {val.item()!r}->{t.detach().item()!r}")
                 elif d[k] != old[1]:
-                    rec(f"C11:caller-group-value-changed:{k}", f"{old[1]!r} -> {d[k]!r}")
+                    rec(f"C11:caller-group-value-changed:{k}" + suffix, f"{old[1]!r} -> {d[k]!r}")
         if s["lr"] is not None:
             t, ver, val, ptr = s["lr"]
             bump("sanitizer:tensor-lr-checked")
             if t._version != ver or not bits_equal(t.detach(), val):
-                rec("C11:caller-tensor-modified:global-lr", f"lr tensor: version {ver}->{t._version}, {val.item()!r}->{t.detach().item()!r}")
-        if not s["entries"]:
-            return  # generator input: structure is judged by the harness, which knows what it yielded
-        out = list(result)
-        if len(out) != len(flat):
-            rec("C11:group-count", f"{len(out)} output groups for {len(flat)} input parameters")
-            return
+                rec("C11:caller-tensor-modified:global-lr" + suffix, f"lr tensor: version {ver}->{t._version}, {val.item()!r}->{t.detach().item()!r}")
+
+    state["snap"], state["caller_untouched"] = snap, _caller_untouched
+
+    def _rest(s, lr, weight_decay, independent, result, flat, out):
         for g, (p, src) in zip(out, flat):
             if len(g["params"]) != 1 or g["params"][0] is not p:
                 rec("C11:parameter-order-or-identity", "output groups are not the input parameters, one per group, in input order")
@@ -288,6 +297,7 @@ def run_case(case: Dict[str, Any], ctx) -> None:
             return src_of(i).get(key, default)
         return default
 
+    before = st["snap"](arg, global_lr)
     try:
         if opt_name == "direct":
             st["direct"][0] = True
@@ -309,6 +319,10 @@ def run_case(case: Dict[str, Any], ctx) -> None:
         err = None
     except Exception as e:
         err = e
+    if err is not None:
+        # a refusal must not leave the caller's groups / lr tensors altered either (no postcondition runs after a raise)
+        st["caller_untouched"](before, ":after-a-refused-call")
+        ctx.count("sanitizer:caller-state-compared-after-a-raise")
     _flush(st, ctx)
     if expect_error:
         if err is None:
